@@ -600,13 +600,20 @@ def t_quotes(toks, gaps):
             value = body.replace("\\'", "'").replace('\\"', '"')
             prev = toks[i - 1][0] if i else "BOF"
             where = {"IMPORT": "import", "OPEN_SHARP": "position-mark-name", "ASSIGN": "lang-string"}.get(prev, "value")
-            for name, q in (("sq", "'"), ("dq", '"')):
-                sp = q + value.replace(q, "\\" + q) + q
-                if sp == tx:
-                    continue
-                nt = list(toks)
-                nt[i] = ("STRING_LITERAL", sp)
-                yield ("quotes", f"{name}:{where}:text-with-quotes", nt, list(gaps))
+            for name, q, o in (("sq", "'", '"'), ("dq", '"', "'")):
+                # the delimiter must be escaped; the other quote may be written bare or escaped - all spell the same text
+                for esc_other in (False, True):
+                    body2 = value.replace(q, "\\" + q)
+                    if esc_other:
+                        if o not in value:
+                            continue
+                        body2 = body2.replace(o, "\\" + o)
+                    sp = q + body2 + q
+                    if sp == tx:
+                        continue
+                    nt = list(toks)
+                    nt[i] = ("STRING_LITERAL", sp)
+                    yield ("quotes", f"{name}:{where}:text-with-quotes" + (":other-quote-escaped" if esc_other else ""), nt, list(gaps))
             continue
         if not SIMPLE_BODY.fullmatch(body):
             continue
